@@ -119,8 +119,7 @@ class LibModel:
                 return [(st, Obj('uniqvars', {'of': n}))]
             if name == '_conclusion_':
                 return [(st, Obj('conclusions', {'of': n}))]
-            # methods
-            return [(st, Meth(recv, name))]
+            return self.node_member(eng, st, recv, name)
         if isinstance(recv, ZV) and recv.ty == 'hv':
             if name == 'value':
                 return [(st, ZV(Z.hv_value(recv.t), 'val'))]
@@ -147,6 +146,34 @@ class LibModel:
                 return [(st, Obj('counter'))]
             return [(st, Meth(recv, name))]
         return None
+
+    KNOWN_NODE_METHODS = ('_evaluate__', '_evaluate_', '_apply_mapping_', '_is_duplicate_output_', '_reset_cache_',
+                          '_reset_only_my_cache_', 'update_cache', 'yield_final_output_from_cache', 'evaluate_right',
+                          '_required_variables_from_child_', '_warn_on_unbound_variables_', 'evaluate')
+
+    def node_member(self, eng, st, recv, name):
+        """an attribute of an expression node that is not part of the abstract state: resolved through the real class
+        (properties are executed, methods become callable, anything else is outside the model)"""
+        n = recv.t
+        is_self = st.ghost.get('self') is not None and n.eq(st.ghost['self'])
+        cls = getattr(self, 'cls', None)
+        if getattr(self, 'node_' + name, None) is not None or name in getattr(self, 'inline', ()) \
+                or name in getattr(self, 'inline_gens', ()):
+            return [(st, Meth(recv, name))]
+        if is_self and cls:
+            q = self.src.resolve_method(cls, name)
+            if q is not None:
+                fd = self.src.get(q)
+                decos = [d.id if isinstance(d, ast.Name) else (d.attr if isinstance(d, ast.Attribute) else
+                                                               (d.func.id if isinstance(d, ast.Call) and isinstance(d.func, ast.Name) else ''))
+                         for d in fd.decorator_list]
+                if 'property' in decos or 'cached_property' in decos:
+                    return self.inline_method(eng, st, q, recv, [], {}, None)
+                return [(st, Meth(recv, name))]
+            raise OutOfSubset(f"attribute {cls}.{name} is not part of the abstract state")
+        if name in self.KNOWN_NODE_METHODS:
+            return [(st, Meth(recv, name))]
+        raise OutOfSubset(f"attribute .{name} of a node is not part of the abstract state")
 
     def setattr(self, eng, st: State, recv: SV, name: str, v: SV):
         if isinstance(recv, ZV) and recv.ty in ('node', 'optnode'):
@@ -241,6 +268,16 @@ class LibModel:
         if isinstance(f, Meth) and isinstance(f.recv, ZV) and f.recv.ty == 'node' and f.name in getattr(self, 'inline', ()):
             q = self.src.resolve_method(self.cls, f.name)
             if q is not None:
+                return self.inline_method(eng, st, q, f.recv, args, kwargs, node)
+        # a helper method of the same object that has no contract: its real body is executed in place (generators: when
+        # they are iterated)
+        if isinstance(f, Meth) and isinstance(f.recv, ZV) and f.recv.ty == 'node' and getattr(self, 'cls', None) \
+                and st.ghost.get('self') is not None and f.recv.t.eq(st.ghost['self']) and f.name not in self.KNOWN_NODE_METHODS:
+            q = self.src.resolve_method(self.cls, f.name)
+            if q is not None and q != getattr(self, 'qual', None):
+                fd = self.src.get(q)
+                if any(isinstance(x, (ast.Yield, ast.YieldFrom)) for x in ast.walk(fd)):
+                    return [(st, Obj('gen', {'qual': q, 'args': [f.recv] + list(args), 'kwargs': kwargs}))]
                 return self.inline_method(eng, st, q, f.recv, args, kwargs, node)
         return None
 
@@ -531,6 +568,15 @@ class LibModel:
             if isinstance(kk, C) and isinstance(k, C) and kk.v == k.v:
                 return vv
         raise OutOfSubset(f"lookup of {k} in a python map")
+
+    def obj_combo_values(self, eng, st, recv, args, kwargs, node):
+        return [(st, Lst([v for _, v in recv.data['items']]))]
+
+    def obj_combo_keys(self, eng, st, recv, args, kwargs, node):
+        return [(st, Lst([k for k, _ in recv.data['items']]))]
+
+    def obj_combo_items(self, eng, st, recv, args, kwargs, node):
+        return [(st, Lst([Tup([k, v]) for k, v in recv.data['items']]))]
 
     def obj_pymap_values(self, eng, st, recv, args, kwargs, node):
         return [(st, Lst([v for _, v in recv.data['items']]))]
